@@ -87,6 +87,12 @@ The two lazily built collections must not share output keys unless their stand-a
 ``<op>:<param>-not-in-name:siblings-share-keys``); for a seeded ~15 % of the cases both are also computed in one graph and
 compared with their stand-alone values (``<op>:<param>:differs-when-computed-with-sibling``).  Counters siblings_built /
 siblings_computed_together / siblings_with_different_values have floors.
+Calibration of the facet: FALSE ALARM corrected — results were first compared as ordered lists; a disk ``groupby``
+returns the same groups in another order when its tasks run in another order (joint graph): results are compared as
+multisets (members of a group too).  GENUINE (fixes_ready/SIB_02): ``repartition(partition_size=)`` is named from
+(bag, size) although its boundaries come from sampled memory estimates that change from call to call — the same call
+twice gives one name with 9 and 11 partitions, ``concat`` of the two loses elements; seen as
+``repartition:arguments-not-in-name:siblings-share-keys`` (sibling '200B' vs 200), about one case per run.
 """
 from __future__ import annotations
 
@@ -111,7 +117,7 @@ RULE = ("cases = (forced last operation, case seed); the seed determines element
 ASSUMPTIONS = ["CPython builtins / itertools / functools.reduce / fractions as the reference",
                "dask.delayed builds the partitions the harness wrote",
                "the operator library used in folds is associative with identity initials (checked by construction)"]
-BUDGET = {"quick": 45, "thorough": 540}
+BUDGET = {"quick": 65, "thorough": 600}   # the sibling facet adds ~60 % CPU per case (measured in-process); cap, not target
 # floors: ~45 % of the counts measured on the unchanged tree for the full quick stream (9000 cases, seeds 0-2, 7, 12345);
 # the thorough stream is 150000 cases of the same mixture (x16.7), floored at x15 of the quick floors
 _QUICK_COUNTERS = {
@@ -131,6 +137,10 @@ FLOORS = {
 }
 FLOORS["quick"]["counters"] = dict(_QUICK_COUNTERS, op_repartition_grid=300)
 FLOORS["thorough"]["counters"]["op_repartition_grid"] = 1400
+# sibling facet (vf/mon/siblings.py): ~45 % of the smallest count of the five quick seeds on the unchanged tree; thorough =
+# quick floor x (thorough / quick stream size) x 0.6.  A run in which the facet never executed is INCONCLUSIVE.
+FLOORS["quick"]["counters"].update({"siblings_built": 3800, "siblings_computed_together": 540, "siblings_with_different_values": 355})
+FLOORS["thorough"]["counters"].update({"siblings_built": 36000, "siblings_computed_together": 5100, "siblings_with_different_values": 3400})
 EXHAUSTIVE_SPACE = None
 LEVEL_NOTE = ("trusts CPython's builtins/itertools/functools/fractions as reference and the harness' own multiset comparison; "
               "operators given to fold/foldby/reduction are associative with identity initials by construction")
